@@ -248,6 +248,17 @@ impl<B: Buffer> Editor<B> {
     }
 }
 
+#[cfg(feature = "verif-hooks")]
+impl<B: Buffer> Editor<B> {
+    pub(crate) fn verif_parts(&self) -> crate::verif::VerifEditor<'_> {
+        crate::verif::VerifEditor {
+            buffer: self.buffer.as_slice(),
+            valid: self.valid,
+            cursor: self.cursor,
+        }
+    }
+}
+
 #[cfg(test)]
 mod tests {
     use core::ops::RangeBounds;
